@@ -145,11 +145,38 @@ fn rename_rule_variables(rule: &Rule, counter: &mut usize) -> Rule {
     }
 }
 
+/// Smallest counter value such that no name `v<n>` with `n >= value` occurs as a
+/// variable of `query`.
+fn first_fresh_variable_index(query: &TriplePattern) -> usize {
+    fn scan(term: &Term, next: &mut usize) {
+        match term {
+            Term::Variable(name) => {
+                if let Some(n) = name.strip_prefix('v').and_then(|d| d.parse::<usize>().ok()) {
+                    *next = (*next).max(n.saturating_add(1));
+                }
+            }
+            Term::Constant(_) => {}
+            Term::QuotedTriple(qt) => {
+                scan(&qt.0, next);
+                scan(&qt.1, next);
+                scan(&qt.2, next);
+            }
+        }
+    }
+    let mut next = 0;
+    scan(&query.0, &mut next);
+    scan(&query.1, &mut next);
+    scan(&query.2, &mut next);
+    next
+}
+
 impl Reasoner {
     /// Returns all variable bindings that satisfy `query` via backward chaining.
     pub fn backward_chaining(&self, query: &TriplePattern) -> Vec<HashMap<String, Term>> {
         let bindings = HashMap::new();
-        let mut variable_counter = 0;
+        // Renamed rule variables are called `v<counter>`; start the counter above
+        // every such name used by the goal so that they never capture a goal variable.
+        let mut variable_counter = first_fresh_variable_index(query);
         self.backward_chaining_helper(query, &bindings, 0, &mut variable_counter)
     }
 
